@@ -31,7 +31,8 @@ class _Subst(ast.NodeTransformer):
 
 
 def substitute(expr, mapping: typing.Dict[str, str]):
-  return ast.fix_missing_locations(_Subst(mapping).visit(copy.deepcopy(expr)))
+  from ..core import clone as _c
+  return ast.fix_missing_locations(_Subst(mapping).visit(_c(expr)))
 
 
 def names_in(expr) -> typing.Set[str]:
